@@ -72,17 +72,40 @@ def rule_E(ck, owners, rule="E"):
         rec.count("element_image_copies", len(images))
         for e in images:
             f0 = extend(base, e.guard)
-            ck.eq(rule + "2", fn, "bytes copied from the source == its size_in_bytes()", e.args[2], src["bytes"], f0,
-                  key="%s:image-length" % fn.replace("w_", ""), sample=False)
-            # the destination block: a block allocated here, or the element's old block
+            # the destination block: a block allocated here, or the element's old block.  (A copy from the start of
+            # the source to somewhere else is the field-wise assignment of the first field, not the image.)
             dst = e.args[0]
             blocks = [(a.res, a.args[1], "allocated here") for a in sm.events if a.kind == "ALLOC"]
             if "pre" in tu.meta[fn]["params"]:
                 blocks.append((tu.obs(fn, "pre", "begin"), tu.obs(fn, "pre", "mc"), "the element's old block"))
             hit = [(b, sz, what) for (b, sz, what) in blocks if Facts().is_zero(dst - b)]
             if not hit:
-                rec.count("element_image_destination_unmatched")
+                # a γ-join of block starts (reuse the old block or the one just allocated): every case must be one
+                cases = [f for f in case_split([dst], f0, max_cases=16) if not f.infeasible()]
+                per_case = [[(b, sz, what) for (b, sz, what) in blocks if f.is_zero(simplify(dst - b, f))] for f in cases]
+                if not cases or not all(per_case):
+                    rec.count("element_image_destination_unmatched")
+                    continue
+                ck.eq(rule + "2", fn, "bytes copied from the source == its size_in_bytes()", e.args[2], src["bytes"], f0,
+                      key="%s:image-length" % fn.replace("w_", ""), sample=False)
+                good, bad = True, None
+                for f, hs in zip(cases, per_case):
+                    n2, s2 = simplify(e.args[2], f), simplify(hs[0][1], f)
+                    if not f.nonneg(s2 - n2):
+                        good, bad = False, (f, n2, s2, hs[0][2])
+                        break
+                if bad is not None and (has_unknown(bad[1]) or has_unknown(bad[2])):
+                    rec.broken("%s %s %s: image extent undecided: %s vs %s" % (tu.cfg, rule, fn, show(bad[1])[:100], show(bad[2])[:100]))
+                    continue
+                rec.ob(rule + "1", good, {"config": tu.cfg, "witness": fn, "obligation": "bytes stored into the block (old or new) <= its size"})
+                if not good:
+                    f, n2, s2, what = bad
+                    rec.finding(rule + "1", "%s:image-beyond-block[%s]" % (fn.replace("w_", ""), ck.catkey()),
+                                "%s: %s bytes are stored into the block %s whose size is %s bytes; not within the block under (%s) at %s" % (
+                                    fn, show(n2)[:120], what, show(s2)[:120], " && ".join(show_cond(c) for c in f.raw[-4:])[:260], tu.where(sm, e)), config=tu.cfg)
                 continue
+            ck.eq(rule + "2", fn, "bytes copied from the source == its size_in_bytes()", e.args[2], src["bytes"], f0,
+                  key="%s:image-length" % fn.replace("w_", ""), sample=False)
             b, sz, what = hit[0]
             good, bad = True, None
             for f in case_split([e.guard, sz, e.args[2]], f0, max_cases=48):
